@@ -119,7 +119,8 @@ def frag : Expr → Bool
   | .bin _ _ l r => frag l && frag r && disj (bnd l) (names r) && disj (bnd r) (names l)
   | .call _ f args => frag f && fragList args && disj (bnd f) (namesList args) && disj (bndList args) (names f)
   | .toDyn _ _ _ e => frag e
-  | .dynCall _ _ _ _ _ => false   -- not yet covered by the proof (receiver check precedes the arguments)
+  | .dynCall _ _ _ r args =>
+    frag r && fragList args && disj (bnd r) (namesList args) && disj (bndList args) (names r)
   | .traitCall _ _ _ _ _ => false
   | .proj _ _ e => frag e
 def fragList : List Expr → Bool
